@@ -61,6 +61,19 @@ ListOk(e) ==
      /\ \A i \in 1..Len(want) : PacketOk(e.packets[i], want[i][1], want[i][2], v_map)
      /\ Chk(Cardinality({<<e.packets[i][1], e.packets[i][2]>> : i \in 1..Len(e.packets)}) = Len(e.packets), <<"duplicate packet IDs">>)
 
+\* a long window (or one of every length up to 130 at a large symbol size): exactly n packets with the IDs K+s, K+s+1, ...,
+\* and the sampled members equal (on the logged head and tail of the payload) the same packet requested singly
+BigWindowOk(e) ==
+  LET K == KsOf(Cfg)[e.sbn + 1] IN
+  /\ Chk(e.res = "ok", <<"repair_packets failed", e.sbn, e.s, e.n, e.res>>) /\ e.res = "ok"
+  /\ Chk(Len(e.ids) = e.n, <<"window length", e.s, e.n, Len(e.ids)>>)
+  /\ \A i \in 1..Len(e.ids) : Chk(e.ids[i] = <<e.sbn, K + e.s + i - 1>>, <<"packet carries the wrong identifier", "want", <<e.sbn, K + e.s + i - 1>>, "got", e.ids[i]>>)
+  /\ \A j \in 1..Len(e.samples) :
+       LET sm == e.samples[j] IN
+       /\ Chk(sm.len = Cfg.t, <<"payload length", e.sbn, K + e.s + sm.i, sm.len>>)
+       /\ Chk(sm.single_id = K + e.s + sm.i /\ sm.single = sm.win,
+              <<"repair packet for the same ESI differs between requests", "block", e.sbn, "esi", K + e.s + sm.i, "window", e.s, e.n>>)
+
 Init == v_pos = 1 /\ v_cfgpos = 0 /\ v_map = <<>> /\ v_obs = 0
 Step ==
   /\ v_pos <= Len(Rec)
@@ -69,6 +82,8 @@ Step ==
      \/ e.ev = "cfg" /\ v_cfgpos' = v_pos /\ v_map' = <<>> /\ UNCHANGED v_obs
      \/ /\ e.ev = "window" /\ WindowOk(e) = TRUE
         /\ v_map' = (IF Exact(Cfg) THEN v_map ELSE Learn(v_map, e.packets)) /\ v_obs' = v_obs + Len(e.packets) /\ UNCHANGED v_cfgpos
+     \/ /\ e.ev = "bigwindow" /\ BigWindowOk(e) = TRUE
+        /\ v_obs' = v_obs + Len(e.ids) /\ UNCHANGED <<v_cfgpos, v_map>>
      \/ /\ e.ev = "list" /\ ListOk(e) = TRUE
         /\ v_map' = (IF Exact(Cfg) THEN v_map ELSE Learn(v_map, SelectSeq(e.packets, LAMBDA p : p[2] >= KsOf(Cfg)[p[1] + 1])))
         /\ v_obs' = v_obs + Len(e.packets) /\ UNCHANGED v_cfgpos
